@@ -420,6 +420,23 @@ func checkUnique(c *core.Ctx, l *core.Ledger) {
 				k++
 				key := fmt.Sprintf("%s@%s#%d", s.what, f.Name(), k)
 				ok := core.AllPathsThroughEdges(f, in.Block(), edges)
+				if !ok {
+					// the claim may sit in the caller: an unexported function every call of which is itself
+					// dominated by a successful claim (one level)
+					sitesOf := c.StaticCallSites(f)
+					all := len(sitesOf) > 0 && !token.IsExported(f.Name())
+					for _, cs := range sitesOf {
+						caller := cs.Parent()
+						if caller == nil || c.IsTestFile(cs.Pos()) {
+							continue
+						}
+						ce := successEdges(caller, isClaim)
+						if !core.AllPathsThroughEdges(caller, cs.Block(), ce) {
+							all = false
+						}
+					}
+					ok = all
+				}
 				l.Check(ok, "UNIQUE", key, c.Rel(in.Pos()), "insertion is dominated by a successful claim of the name in the scope's namespace", "a definition is inserted into "+s.what+" on a path that has not successfully claimed its name: duplicates can be accepted (later one silently wins)")
 			})
 		}
